@@ -48,6 +48,13 @@ FAILS = [
     ("host_raise(\"ImportError\", \"from host\");", "ImportError", "from host"),
     ("host_raise(\"RuntimeError\", \"from host\");", "RuntimeError", "from host"),
     ("host_raise(\"CompileError\", \"from host\");", "RuntimeError", "from host"),   # surfaces as a RuntimeError instance by design
+    # instances of classes that are not one of the seven built-in error classes: the report names the class a handler observes
+    ("{ #[derive(ValueError)] class ParseErr { #[constructor] fn new(self, m) { self.context = m; } } throw ParseErr.new(\"unexpected\"); }", "RuntimeError", "=Unhandled ParseErr: unexpected"),
+    ("throw Error.new(\"base\");", "RuntimeError", "=Unhandled Error: base"),
+    ("throw StopIter.new();", "RuntimeError", "=Unhandled StopIter: nil"),
+    ("{ class Plain { #[constructor] fn new(self) { self.context = \"ctx\"; } } throw Plain.new(); }", "RuntimeError", "=Unhandled Plain: ctx"),
+    ("{ #[derive(Error)] class Deep { #[constructor] fn new(self) { self.context = [1, 2]; } } #[derive(Deep)] class Deeper { #[constructor] fn new(self) { super.new(); } } throw Deeper.new(); }",
+     "RuntimeError", "=Unhandled Deeper: [1, 2]"),
 ]
 
 
@@ -99,7 +106,8 @@ def gen_trace_program(rng):
             emit("}")
             frames.append(("%s()" % name, (lb, lc)))
             callee = "%s(3)" % name
-        elif callee is None and rng.chance(1, 5):
+        elif callee is None and not body_stmt.startswith("{") and rng.chance(1, 5):
+            # (statements that declare and USE locals are kept out of this shape: ledger F23, locals inside a finally block on the exception path)
             # a first exception is propagating through a finally block in which the statement chosen by the generator fails: the report is
             # that of the SECOND failure (its class, its message, its line); the superseded first throw must leave no trace
             name = "f%d" % uid
@@ -210,6 +218,8 @@ def gen_trace_program(rng):
             first = "Unhandled exception: 42"
         else:
             first = None
+    elif msg.startswith("="):
+        first = msg[1:]
     else:
         first = "Unhandled %s: %s" % (kind, msg)
     def entry(mod, l, lab):
@@ -217,6 +227,10 @@ def gen_trace_program(rng):
             return "|".join("[module \"%s\", line %d] in %s" % (mod, x, lab) for x in l)
         return "[module \"%s\", line %d] in %s" % (mod, l, lab)
     expected_trace = [entry(mod, l, lab) for lab, l, mod in trace]
+    if rng.chance(1, 6):
+        # the same program with CRLF line ends: a carriage return is white space, not a line
+        src = src.replace("\n", "\r\n")
+        modules = {k: v.replace("\n", "\r\n") for k, v in modules.items()}
     return src, modules, kind, first, expected_trace
 
 
